@@ -999,3 +999,13 @@ V("spawn-throttled-blocking-acquire", "break", ["C18"], MP, None, None, "start-u
   edits=_SEM_EDITS("slots.acquire()"), expect_rule="R-LIVENESS")
 V("spawn-throttled-timed-acquire", "neutral", ["C18", "C11", "C12"], MP, None, None, "the same throttle with a bounded acquire (the worker is started anyway after the timeout); the wrapper forwards entry point and arguments",
   edits=_SEM_EDITS("slots.acquire(timeout=QUEUE_TIMEOUT)"))
+# ---- R-TRIGGER-JOIN own-call (round 6, C08-x3)
+_TRG = "            triggers = GET_TRIGGERS_FCTS[prop_algorithm](len(prop_vars), prop_params)\n"
+V("triggers-memo-per-kind", "break", ["C01", "C08", "C13"], PB, _TRG,
+  "            signature = (prop_algorithm, len(prop_vars))\n            if signature not in triggers_memo:\n                triggers_memo[signature] = GET_TRIGGERS_FCTS[prop_algorithm](len(prop_vars), prop_params)\n            triggers = triggers_memo[signature]\n",
+  "wake-up events computed once per (algorithm, arity) and reused: the linear inequalities' events depend on the coefficient signs", "Problem.init", expect_rule="R-TRIGGER-JOIN",
+  also=[{"file": PB, "edits": [{"old": "        self.triggers = np.zeros((self.shr_domain_nb, self.propagator_nb), dtype=np.uint8)\n", "new": "        self.triggers = np.zeros((self.shr_domain_nb, self.propagator_nb), dtype=np.uint8)\n        triggers_memo = {}\n"}]}])
+V("triggers-first-constraint-params", "break", ["C01", "C08", "C13"], PB, _TRG, "            triggers = GET_TRIGGERS_FCTS[prop_algorithm](len(prop_vars), self.propagators[0][2])\n",
+  "the trigger function is given the parameters of the first constraint", "Problem.init", expect_rule="R-TRIGGER-JOIN")
+V("triggers-call-through-local", "neutral", ["C01", "C08", "C13", "C15"], PB, _TRG, "            get_triggers = GET_TRIGGERS_FCTS[prop_algorithm]\n            triggers = get_triggers(len(prop_vars), prop_params)\n",
+  "the trigger function held in a local first")
